@@ -50,8 +50,8 @@ TSet == /\ IsEvent("set")
 \* canonical-text comparison: decisive only when Strict
 TextExact(f, text, v) ==
   LET c == Render(f, v) IN
-  \/ text = c
-  \/ ~Strict /\ PrintT("DRIFT " \o f \o " format: library printed " \o text \o " where the specification prints " \o c)
+  IF text = c THEN TRUE
+  ELSE ~Strict /\ PrintT("DRIFT " \o f \o " format: library printed " \o text \o " where the specification prints " \o c)
 
 TAsprintf == /\ IsEvent("asprintf")
              /\ LET e == T[l] IN
